@@ -135,3 +135,25 @@ func verifHarness_C02_ReattachDuringRemoval() {
 	r.walk()
 	r.drive(o, steps)
 }
+
+// A message is sent with the scheduler lock released: the task may complete
+// while an EXECUTING update is on its way out. The stream must still end with
+// the done message carrying the worker's response.
+func verifHarness_C02_CompletionDuringSend() {
+	rt.PreemptionBound(0)
+	steps := 2
+	if rt.Tier() > 0 {
+		steps = 4
+	}
+	rt.Bound("steps", steps)
+	rt.MustCover("send:completed-during-send", "stream:done", "final:worker-response")
+	r, o := vsC02Rig()
+	r.sendRace = true
+	r.execute(r.clients[0])
+	o.execs = []int{1, 0}
+	rt.Quiesce()
+	r.sync(r.workers[0], vsSyncIdle) // the worker takes the task; the client is sent an EXECUTING update
+	rt.Quiesce()
+	r.walk()
+	r.drive(o, steps)
+}
